@@ -1,1 +1,24 @@
 pub mod special;
+
+/// Process history "a 32-bit type calls everything first": state that is initialised once per
+/// process by whoever comes first (a cached constant, a lazily built table, a scratch buffer) must
+/// not inherit the first caller's precision or shape.  Called by the monitors before their
+/// workloads start, so that every 64-bit evaluation below runs *after* a 32-bit one.
+pub fn warm_up_f32() {
+    use ndv_core::evidence::guarded;
+    use ndv_core::funcs::{apply, c01_funcs};
+    use ndv_core::Func;
+    use num_dual::{Dual32, Dual3_32, DualNum, DualSVec32};
+    for x0 in [0.5f32, 1.5f32] {
+        let x = Dual32::new(x0, 1.0);
+        let y = Dual3_32::new(x0, 1.0, 0.5, 0.25);
+        let v = DualSVec32::<2>::new(x0, num_dual::Derivative::some(nalgebra::SVector::<f32, 2>::new(1.0, 2.0)));
+        for f in c01_funcs().into_iter().chain([Func::SphJ0, Func::SphJ1, Func::SphJ2]) {
+            let _ = guarded(|| apply::<Dual32, f32>(f, &x));
+            let _ = guarded(|| apply::<Dual3_32, f32>(f, &y));
+            let _ = guarded(|| apply::<DualSVec32<2>, f32>(f, &v));
+        }
+        let _ = guarded(|| (x.powi(3), x.powi(-2), x.powf(2.5), x.powf(3.0), x.powd(x), x.mul_add(x, x), x.sin_cos(), x.recip(), y.powi(7), y.powf(0.5), y.powd(y)));
+        let _ = guarded(|| (x / x, x * x, y / y, y * y, v.clone() / v.clone(), v.clone() * v.clone()));
+    }
+}
